@@ -9,6 +9,12 @@ CHECKS = {
              note="overlap-pair extraction and metric kernels are contract stubs (decided by C09/C06/C07); free scores over-approximate, counterexamples are realised as voxel counts and replayed; grids larger than the bound are outside the claim",
              ref="DESIGN.md section 4 / C03"),
 }
+CHECKS["C06"] = dict(text="The real Metric.__call__/_Metric.__call__ label selection and the Dice/IoU/RVD/clDice kernels run on fully symbolic small arrays (every voxel, the requested reference label and prediction label(s) are solver variables, incl. absent labels and values outside the dtype); each result is compared by SMT query with the set-theoretic definition built directly from the voxel variables, plus symmetry, range, the Dice-IoU relation and '= 1 iff identical'.",
+             note="skeletonisation is an uninterpreted subset (stub); float64 as exact rationals; arrays larger than the bound are outside the claim",
+             ref="DESIGN.md section 4 / C06")
+CHECKS["C02"] = dict(text="The real evaluate_matched_instance decision filter, EvaluateInstancePair, PanopticaResult, Evaluation_List_Metric and the fp/fn/rq/sq/pq calculators run with per-instance metric values, thresholds and (for directly constructed results) unbounded counts as solver variables; list lengths, tp+fp/tp+fn, mean/std, rq and pq identities and ranges are SMT obligations on every path.",
+             note="per-instance kernel is a contract stub (free reals under the C06 lemmas); np.std trusted (obligation on its arguments); ranges of quotients via linear side conditions; counterexamples realised as 1-D label maps and replayed through Panoptica_Evaluator.evaluate",
+             ref="DESIGN.md section 4 / C02")
 NA = {}
 m = {"version": 1, "setup_cmd": "./bootstrap.sh",
      "hooks": {"guard": "PANOPTICA_VERIF", "enable": "no hooks in /repo: checks re-import /repo/panoptica from the working tree into a private twin with model modules substituted at import time (pv/twin.py)",
